@@ -17,6 +17,7 @@ INVARIANT DupRejected
 INVARIANT EventsAreDiff
 INVARIANT EventsAsSpec
 INVARIANT ExecutedOnce
+INVARIANT ProcessedRecorded
 INVARIANT ForcedExecutedOrFailed
 INVARIANT ImportedInOrder
 INVARIANT InboxRoot
